@@ -220,6 +220,16 @@ impl Index {
             let f = self.locate(&format!("{} nosig", inner))?;
             return lift_arm(f, &pat, nth, after_pat.as_deref());
         }
+        if let Some(rest) = loc.strip_prefix("nested fn ") {
+            // `nested fn NAME of <fn locator>`: a function item declared inside the body of another function
+            let (name, inner) = rest.split_once(" of ").ok_or_else(|| Undecided("nested fn locator needs 'of <fn locator>'".into()))?;
+            let inner = match &in_file {
+                Some(f) => format!("{} in {}", inner.trim(), f),
+                None => inner.trim().to_string(),
+            };
+            let f = self.locate(&format!("{} nosig", inner))?;
+            return lift_nested_fn(f, name.trim());
+        }
         if let Some(rest) = loc.strip_prefix("stmts ") {
             let (first, after) = parse_quoted(rest).ok_or_else(|| Undecided("stmts locator needs quoted first statement prefix".into()))?;
             let after = after.trim().strip_prefix("..").ok_or_else(|| Undecided("stmts locator needs '..'".into()))?;
@@ -718,6 +728,43 @@ fn lift_arm(f: Found, pat: &str, nth: usize, after_pat: Option<&str>) -> Result<
         body_line_start: body_line,
         sig_norm: None,
         lifted: Some(format!("arm `{}`", pat)),
+        ..f
+    })
+}
+
+fn lift_nested_fn(f: Found, name: &str) -> Result<Found, Undecided> {
+    use syn::visit::Visit;
+    let block: syn::Block = syn::parse_str(&f.body_text).map_err(|e| Undecided(format!("body of {} does not parse: {}", f.origin, e)))?;
+    struct V {
+        name: String,
+        hits: Vec<(std::ops::Range<usize>, std::ops::Range<usize>, std::ops::Range<usize>)>,
+    }
+    impl<'ast> Visit<'ast> for V {
+        fn visit_item_fn(&mut self, i: &'ast syn::ItemFn) {
+            if i.sig.ident == self.name {
+                self.hits.push((i.span().byte_range(), i.sig.span().byte_range(), i.block.span().byte_range()));
+            }
+            syn::visit::visit_item_fn(self, i);
+        }
+    }
+    let mut v = V { name: name.to_string(), hits: vec![] };
+    v.visit_block(&block);
+    if v.hits.len() != 1 {
+        bail!("lost anchor: nested fn `{}` found {} times in {}", name, v.hits.len(), f.origin);
+    }
+    let (item, sig, body) = v.hits.pop().unwrap();
+    let line = f.body_line_start + line_of(&f.body_text, item.start) - 1;
+    Ok(Found {
+        origin: format!("{} nested fn `{}` at line {}", f.origin, name, line),
+        item_text: f.body_text[item.clone()].to_string(),
+        item_line_start: line,
+        item_line_end: f.body_line_start + line_of(&f.body_text, item.end) - 1,
+        body_text: f.body_text[body.clone()].to_string(),
+        body_line_start: f.body_line_start + line_of(&f.body_text, body.start) - 1,
+        sig_norm: None,
+        sig_text: f.body_text[sig.clone()].to_string(),
+        sig_src: f.body_text[sig].to_string(),
+        lifted: None,
         ..f
     })
 }
